@@ -318,12 +318,12 @@ def params(ctx):
     """generator parameters (see the comment at P in specs/Ident.tla).  The universe is the same in both tiers and
     does not depend on the seed; the thorough tier runs all of it, the quick tier the part selected by the seed."""
     quick = ctx.tier == "quick"
-    single = {"utarget": 0, "ubigtarget": 700, "biglen": 30000, "alllen": 2048, "nflip": 12, "nrand": 20,
+    single = {"utarget": 0, "ubigtarget": 700, "biglen": 30000, "alllen": 2048, "nflip": 12, "flipk": 12, "nrand": 20,
               "maxfaults": 1, "psub": 1, "phase": ctx.seed,
               "qtarget": 140 if quick else 0, "qbigtarget": 10 if quick else 0, "qalllen": 300 if quick else 2048,
               "qflip": 1 if quick else 12, "qrand": 2 if quick else 20}
-    pairs = {"utarget": 40, "ubigtarget": 8, "biglen": 30000, "alllen": 0, "nflip": 1, "nrand": 1,
-             "maxfaults": 2, "psub": 24 if quick else 1, "phase": ctx.seed,
+    pairs = {"utarget": 24, "ubigtarget": 6, "biglen": 30000, "alllen": 0, "nflip": 1, "flipk": 4, "nrand": 1,
+             "maxfaults": 2, "psub": 16 if quick else 1, "phase": ctx.seed,
              "qtarget": 0, "qbigtarget": 0, "qalllen": 0, "qflip": 1, "qrand": 1}
     return single, pairs
 
